@@ -69,6 +69,10 @@ fn response_bytes(x: usize, e: &Value) -> (Vec<Vec<u8>>, bool) {
         }
         "chunked" => {
             head.push_str("transfer-encoding: chunked\r\n");
+            // a Content-Length next to chunked coding: RFC 7230 3.3.3 - the transfer coding overrides it
+            if let Some(k) = e.get("also_cl").and_then(|k| k.as_u64()) {
+                head.push_str(&format!("content-length: {k}\r\n"));
+            }
             let cs = e["chunk"].as_u64().unwrap_or(7) as usize;
             for c in body.chunks(cs.max(1)) {
                 wire_body.extend_from_slice(format!("{:x}\r\n", c.len()).as_bytes());
